@@ -11,7 +11,7 @@ DESCRIPTION = {
              "model id -> ordered list of attached handlers: on each EVENT exactly the handlers in the model at arrival are invoked once each, in subscription order, with exactly "
              "the published args/kwargs (no keys added by another handler's details) and EventDetails iff requested, whose .subscription is that handler's own Subscription object; a raising handler stops nothing and nothing escapes "
              "onMessage; no handler is invoked after its unsubscribe() returned; UNSUBSCRIBE is written exactly when a handler list becomes empty; events for an id whose removal "
-             "is in flight are dropped silently; for a never-held id ProtocolError.  Non-trivial = >=2 handlers on one id with an unsubscribe or raising handler between two "
+             "is in flight are dropped silently; for a never-held id ProtocolError.  Handlers are plain callables, callables asking for details under either spelling, or decorated methods of a subscribed object (also one that is an empty container): a method must be invoked with exactly that object as self.  Non-trivial = >=2 handlers on one id with an unsubscribe or raising handler between two "
              "events; distinct by history digest."),
     "assumptions": ["order is asserted only among handlers of one subscription id", "a sibling unsubscribed by another handler *during* the dispatch of an event may or may not see that event"],
 }
